@@ -62,9 +62,19 @@ type c03In struct {
 	PathValue Bs       `json:"path_value,omitempty"` // value of the path segment (path parameters)
 	RawQuery  *Bs      `json:"raw_query,omitempty"`  // send this query string as is (malformed stream)
 	Multipart bool     `json:"multipart,omitempty"`
-	S         Bs       `json:"s,omitempty"`
+	// values sent in locations OTHER than the declared one (cross-location decoys): the binder must not see them
+	Decoys []c03Decoy `json:"decoys,omitempty"`
+	S      Bs         `json:"s,omitempty"`
 	CF        Bs       `json:"scf,omitempty"`
 	Name      Bs       `json:"sname,omitempty"`
+}
+
+// one (key, value) sent in a location that is not the parameter's: "query", "header", "form" (the request then
+// is a POST with a urlencoded or multipart body), "path" (the route becomes /x/{key}, val is the segment)
+type c03Decoy struct {
+	Loc string `json:"loc"`
+	Key Bs     `json:"key"`
+	Val Bs     `json:"val"`
 }
 
 type c03Obs struct {
@@ -120,8 +130,8 @@ func (c03) Rule() string {
 	return "bind: declaration lattice {query, header, path, formData urlencoded/multipart} x {string(+registered formats, byte), integer(int8..int64, none), " +
 		"number(float, double, none), boolean, array of those x {csv, ssv, tsv, pipes, multi, none}} x required x default(absent/typed/ill-typed) x allowEmptyValue x validations; " +
 		"texts: boundary literals of every width, signs, leading zeros, hex/underscore/exponent, inf/NaN, empty, whitespace, repeated keys, separators inside items, header names in lower/upper/mixed case; " +
-		"a malformed stream (raw query strings). canon/int/split/read: the exactly modelled library functions on structured and arbitrary bytes. " +
-		"Non-trivial: a bind case where the declared name occurs in the request or a required/default rule decides (everything but an absent optional parameter without default); " +
+		"a malformed stream (raw query strings); cross-location decoys: the declared name also (or only) sent in one or two of the OTHER locations (query string, form body urlencoded/multipart, header line, path segment) with another value, an invalid literal or empty - ignored by the expected outcome. canon/int/split/read: the exactly modelled library functions on structured and arbitrary bytes. " +
+		"Non-trivial: a bind case where the declared name occurs in the request or a required/default rule decides (everything but an absent optional parameter without default), or the name is sent in another location; " +
 		"an int text with a digit; a split text containing the separator or white space; a canon name with a letter."
 }
 
@@ -616,6 +626,9 @@ func (c03) Gen(r *rand.Rand, tier string, i int) any {
 	nocc := []int{0, 0, 1, 1, 1, 1, 1, 2, 2, 3}[r.Intn(10)]
 	if d.In == "path" {
 		in.PathValue = Bs(c03PathSafe(text()))
+		if r.Intn(3) == 0 {
+			c03GenDecoys(r, &in, text)
+		}
 		return in
 	}
 	noise := func() [2]Bs {
@@ -654,7 +667,79 @@ func (c03) Gen(r *rand.Rand, tier string, i int) any {
 		in.RawQuery = &raw
 		in.Pairs = nil
 	}
+	if r.Intn(3) == 0 {
+		c03GenDecoys(r, &in, text)
+	}
 	return in
+}
+
+func c03OwnLoc(d *c03Decl) string {
+	if d.In == "formData" {
+		return "form"
+	}
+	return d.In
+}
+
+// Cross-location decoys: the declared name (for headers up to case) is ALSO sent in one or two locations other than
+// the declared one, carrying another value of the type, an invalid literal or the empty text; in one case out of four
+// the declared location does not carry the name at all, so that the decoy is the only occurrence in the request and the
+// required / default rules decide. The sources of the model are per location, so the expected outcome ignores the decoy.
+func c03GenDecoys(r *rand.Rand, in *c03In, text func() string) {
+	d := in.Decl
+	own := c03OwnLoc(d)
+	var locs []string
+	for _, l := range []string{"query", "query", "form", "header", "path"} { // the query string is the classic confusion (Request.Form, FormValue)
+		if l != own {
+			locs = append(locs, l)
+		}
+	}
+	if r.Intn(4) == 0 && d.In != "path" && in.RawQuery == nil { // the decoy is the only occurrence
+		var keep [][2]Bs
+		for _, p := range in.Pairs {
+			if string(p[0]) == d.Name || (d.In == "header" && strings.EqualFold(string(p[0]), d.Name)) {
+				continue
+			}
+			keep = append(keep, p)
+		}
+		in.Pairs = keep
+	}
+	n := 1
+	if r.Intn(3) == 0 {
+		n = 2
+	}
+	for i := 0; i < n; i++ {
+		loc := c03Pick(r, locs)
+		key := d.Name
+		if d.In == "header" && r.Intn(2) == 0 {
+			key = http.CanonicalHeaderKey(key)
+		}
+		var v string
+		switch r.Intn(5) {
+		case 0:
+			v = c03Pick(r, []string{"zzz", "", "99999999999999999999", "1.5x", "a,b|c", "-"})
+		default:
+			v = text()
+		}
+		switch loc {
+		case "header":
+			if !c03IsToken(key) {
+				continue
+			}
+			key, v = c03HeaderVariant(r, key), c03HeaderSafe(v)
+		case "path":
+			if !c03IsPathName(key) {
+				continue
+			}
+			v = c03PathSafe(v)
+		}
+		in.Decoys = append(in.Decoys, c03Decoy{Loc: loc, Key: Bs(key), Val: Bs(v)})
+		if r.Intn(5) == 0 && loc != "path" { // the decoy key repeated
+			in.Decoys = append(in.Decoys, c03Decoy{Loc: loc, Key: Bs(key), Val: Bs(c03Pick(r, []string{"1", "2", "true", "x", ""}))})
+		}
+	}
+	if own != "form" && r.Intn(3) == 0 {
+		in.Multipart = true
+	}
 }
 
 func c03Junk(r *rand.Rand, alpha string, max int) string {
@@ -691,11 +776,68 @@ func (c03) Enumerate(tier string) []any {
 		}
 		out = append(out, c03In{Kind: "canon", S: Bs(n)})
 	}
+	out = append(out, c03EnumCross()...)
 	if tier == "thorough" {
 		for _, f := range c03FmtNames {
 			for _, txt := range c03FmtTexts[f] {
 				for _, in := range []string{"query", "header", "formData"} {
 					out = append(out, c03In{Kind: "bind", Decl: &c03Decl{Name: "X-Low7", In: in, Type: "string", Format: f}, Pairs: [][2]Bs{{"X-Low7", Bs(c03HeaderSafe(txt))}}})
+				}
+			}
+		}
+	}
+	return out
+}
+
+// every declared location x every other location x {required scalar, scalar with default, required csv array, array with
+// default} x {own value + decoy with another value, own value + decoy with an invalid literal, own empty + decoy,
+// name absent from the own location + decoy}; form bodies in both encodings
+func c03EnumCross() []any {
+	var out []any
+	names := map[string]string{"query": "limit9", "formData": "limit9", "header": "X-Low7", "path": "id9"}
+	for _, own := range []string{"query", "formData", "header", "path"} {
+		name := names[own]
+		cf := "csv"
+		if own == "query" || own == "formData" {
+			cf = "multi"
+		}
+		decls := []c03Decl{
+			{Name: name, In: own, Type: "integer", Format: "int32", Required: true},
+			{Name: name, In: own, Type: "integer", Format: "int32", Required: own == "path", Default: c03JSON(7)},
+			{Name: name, In: own, Type: "array", ItemType: "integer", ItemFormat: "int32", CF: "csv", Required: true},
+			{Name: name, In: own, Type: "array", ItemType: "string", CF: cf, Required: own == "path", Default: c03JSON([]string{"d"})},
+		}
+		for _, other := range []string{"query", "form", "header", "path"} {
+			if other == c03OwnLoc(&c03Decl{In: own}) {
+				continue
+			}
+			for di := range decls {
+				for sit := 0; sit < 4; sit++ {
+					for _, mp := range []bool{false, true} {
+						if mp && own != "formData" && other != "form" {
+							continue
+						}
+						d := decls[di]
+						in := c03In{Kind: "bind", Decl: &d, Multipart: mp}
+						dv := "9"
+						if sit == 1 {
+							dv = "zzz"
+						}
+						ov := "5"
+						if sit == 2 {
+							ov = ""
+						}
+						if own == "path" {
+							if sit >= 2 { // a path segment is never absent or empty
+								continue
+							}
+							in.PathValue = Bs(ov)
+						} else if sit != 3 {
+							in.Pairs = [][2]Bs{{Bs(name), Bs(ov)}}
+						}
+						in.Decoys = []c03Decoy{{Loc: other, Key: Bs(name), Val: Bs(dv)}}
+						out = append(out, in)
+					}
 				}
 			}
 		}
@@ -746,29 +888,107 @@ func c03Encode(ps [][2]Bs) string {
 	return strings.Join(parts, "&")
 }
 
+// what goes where in the request: the occurrences of the declared location plus the cross-location decoys
+type c03Shape struct {
+	query   [][2]Bs
+	header  [][2]Bs
+	form    [][2]Bs
+	hasForm bool   // a form body is sent: POST, urlencoded or multipart
+	pathKey string // "" = the route is /x; else /x/{pathKey}
+	pathVal string
+}
+
+func c03IsToken(s string) bool {
+	if s == "" {
+		return false
+	}
+	for i := 0; i < len(s); i++ {
+		c := s[i]
+		switch {
+		case 'a' <= c && c <= 'z', 'A' <= c && c <= 'Z', '0' <= c && c <= '9':
+		case strings.IndexByte("!#$%&'*+-.^_`|~", c) >= 0:
+		default:
+			return false
+		}
+	}
+	return true
+}
+
+// names that can stand in a route template /x/{name}
+func c03IsPathName(s string) bool {
+	if s == "" {
+		return false
+	}
+	for i := 0; i < len(s); i++ {
+		c := s[i]
+		switch {
+		case 'a' <= c && c <= 'z', 'A' <= c && c <= 'Z', '0' <= c && c <= '9', c == '_', c == '-':
+		default:
+			return false
+		}
+	}
+	return true
+}
+
+func c03ShapeOf(in c03In) c03Shape {
+	d := in.Decl
+	var sh c03Shape
+	own := map[string]string{"query": "query", "header": "header", "formData": "form", "path": "path"}[d.In]
+	switch own {
+	case "query":
+		sh.query = append(sh.query, in.Pairs...)
+	case "header":
+		sh.header = append(sh.header, in.Pairs...)
+	case "form":
+		sh.form, sh.hasForm = append(sh.form, in.Pairs...), true
+	case "path":
+		sh.pathKey, sh.pathVal = d.Name, string(in.PathValue)
+	}
+	for _, dc := range in.Decoys {
+		if dc.Loc == own { // not a decoy
+			continue
+		}
+		switch dc.Loc {
+		case "query":
+			sh.query = append(sh.query, [2]Bs{dc.Key, dc.Val})
+		case "header":
+			if c03IsToken(string(dc.Key)) {
+				sh.header = append(sh.header, [2]Bs{dc.Key, Bs(c03HeaderSafe(string(dc.Val)))})
+			}
+		case "form":
+			sh.form, sh.hasForm = append(sh.form, [2]Bs{dc.Key, dc.Val}), true
+		case "path":
+			if sh.pathKey == "" && c03IsPathName(string(dc.Key)) {
+				sh.pathKey, sh.pathVal = string(dc.Key), c03PathSafe(string(dc.Val))
+			}
+		}
+	}
+	return sh
+}
+
 // the request text; http.ReadRequest parses it exactly as a server would
 func c03RawRequest(in c03In) []byte {
 	d := in.Decl
+	sh := c03ShapeOf(in)
 	var sb bytes.Buffer
 	method, target := "GET", "/x"
 	var body []byte
 	ctype := ""
-	switch d.In {
-	case "query":
-		if in.RawQuery != nil {
-			target += "?" + string(*in.RawQuery)
-		} else if len(in.Pairs) > 0 {
-			target += "?" + c03Encode(in.Pairs)
-		}
-	case "path":
-		target += "/" + url.PathEscape(string(in.PathValue))
-	case "formData":
+	if sh.pathKey != "" {
+		target += "/" + url.PathEscape(sh.pathVal)
+	}
+	if d.In == "query" && in.RawQuery != nil {
+		target += "?" + string(*in.RawQuery)
+	} else if len(sh.query) > 0 {
+		target += "?" + c03Encode(sh.query)
+	}
+	if sh.hasForm {
 		method = "POST"
 		if in.Multipart {
 			var mb bytes.Buffer
 			mw := multipart.NewWriter(&mb)
 			_ = mw.SetBoundary("verifboundary")
-			for _, p := range in.Pairs {
+			for _, p := range sh.form {
 				w, err := mw.CreateFormField(string(p[0]))
 				if err != nil {
 					panic(err)
@@ -779,15 +999,13 @@ func c03RawRequest(in c03In) []byte {
 			body = mb.Bytes()
 			ctype = "multipart/form-data; boundary=verifboundary"
 		} else {
-			body = []byte(c03Encode(in.Pairs))
+			body = []byte(c03Encode(sh.form))
 			ctype = "application/x-www-form-urlencoded"
 		}
 	}
 	fmt.Fprintf(&sb, "%s %s HTTP/1.1\r\nHost: verif\r\n", method, target)
-	if d.In == "header" {
-		for _, p := range in.Pairs {
-			fmt.Fprintf(&sb, "%s: %s\r\n", string(p[0]), string(p[1]))
-		}
+	for _, p := range sh.header {
+		fmt.Fprintf(&sb, "%s: %s\r\n", string(p[0]), string(p[1]))
 	}
 	if method == "POST" {
 		fmt.Fprintf(&sb, "Content-Type: %s\r\nContent-Length: %d\r\n", ctype, len(body))
@@ -803,6 +1021,13 @@ func c03ReadRequest(raw []byte) *http.Request {
 		panic(fmt.Sprintf("harness: generated request does not parse: %v\n%q", err, raw))
 	}
 	return req
+}
+
+// ParseForm also parses the query string and reports its errors; the generated bodies always parse, so an error
+// is the body's only when the (possibly raw, malformed) query string parses
+func c03QueryParses(req *http.Request) bool {
+	_, err := url.ParseQuery(req.URL.RawQuery)
+	return err == nil
 }
 
 func c03Flatten(m map[string][]string) [][2]Bs {
@@ -830,14 +1055,14 @@ type c03Env struct {
 	ran     bool
 }
 
-func c03Build(d *c03Decl) *c03Env {
+func c03Build(d *c03Decl, sh c03Shape) *c03Env {
 	path := "/x"
-	if d.In == "path" {
-		path = "/x/{" + d.Name + "}"
+	if sh.pathKey != "" {
+		path = "/x/{" + sh.pathKey + "}"
 	}
 	method := "get"
 	op := map[string]any{"operationId": "op", "parameters": []any{d.paramJSON()}, "responses": map[string]any{"200": map[string]any{"description": "ok"}}, "produces": []string{"application/json"}}
-	if d.In == "formData" {
+	if sh.hasForm {
 		method = "post"
 		op["consumes"] = []string{"application/x-www-form-urlencoded", "multipart/form-data"}
 	}
@@ -1155,7 +1380,8 @@ func (c03) Run(inAny any) any {
 	}
 	d := in.Decl
 	raw := c03RawRequest(in)
-	env := c03Build(d)
+	sh := c03ShapeOf(in)
+	env := c03Build(d, sh)
 	formats := env.api.Formats()
 
 	// 1. the sources as net/http and the router parse them (a separate copy of the request)
@@ -1168,14 +1394,14 @@ func (c03) Run(inAny any) any {
 				obs.Path = append(obs.Path, [2]Bs{Bs(p.Name), Bs(p.Value)})
 			}
 		}
-		if d.In == "formData" {
+		if sh.hasForm { // the fields of the form body alone (PostForm / MultipartForm.Value), whatever the declared location
 			if in.Multipart {
-				if err := req.ParseMultipartForm(32 << 20); err != nil {
+				if err := req.ParseMultipartForm(32 << 20); err != nil && (c03QueryParses(req) || req.MultipartForm == nil) {
 					panic("harness: multipart body does not parse: " + err.Error())
 				}
 				obs.Form = c03Flatten(req.MultipartForm.Value)
 			} else {
-				if err := req.ParseForm(); err != nil {
+				if err := req.ParseForm(); err != nil && c03QueryParses(req) {
 					panic("harness: form body does not parse: " + err.Error())
 				}
 				obs.Form = c03Flatten(req.PostForm)
@@ -1438,6 +1664,35 @@ func c03TypeClass(d *c03Decl) string {
 	return sc(d.Type, d.Format)
 }
 
+// the locations other than the declared one in which the request carries the declared name (header: up to case)
+func c03DecoyLocs(in c03In) []string {
+	d := in.Decl
+	sh := c03ShapeOf(in)
+	same := func(k string) bool { return k == d.Name || strings.EqualFold(k, d.Name) }
+	has := func(ps [][2]Bs) bool {
+		for _, p := range ps {
+			if same(string(p[0])) {
+				return true
+			}
+		}
+		return false
+	}
+	var out []string
+	if d.In != "query" && has(sh.query) {
+		out = append(out, "query")
+	}
+	if d.In != "header" && has(sh.header) {
+		out = append(out, "header")
+	}
+	if d.In != "formData" && has(sh.form) {
+		out = append(out, "form")
+	}
+	if d.In != "path" && sh.pathKey != "" && same(sh.pathKey) {
+		out = append(out, "path")
+	}
+	return out
+}
+
 func (c03) Category(inAny any, obsAny any) (string, bool) {
 	in, obs := inAny.(c03In), obsAny.(c03Obs)
 	switch in.Kind {
@@ -1506,8 +1761,13 @@ func (c03) Category(inAny any, obsAny any) (string, bool) {
 	if d.In == "header" && d.Name != http.CanonicalHeaderKey(d.Name) {
 		loc = "header-noncanonical"
 	}
+	// cross-location decoys: the other locations in which the declared name is sent as well
+	xl := c03DecoyLocs(in)
+	if len(xl) > 0 {
+		flags += "+also-in:" + strings.Join(xl, ",")
+	}
 	cat := fmt.Sprintf("bind/%s/%s/%s%s/%s", loc, c03TypeClass(d), sit, flags, obs.Outcome)
-	nontrivial := occ > 0 || d.Required || d.Default != nil
+	nontrivial := occ > 0 || d.Required || d.Default != nil || len(xl) > 0
 	return cat, nontrivial
 }
 
